@@ -176,6 +176,20 @@ CLAIMED["C10"] = dict(
          "trusted as for C01",
     design="DESIGN.md 5 C10")
 
+CLAIMED["C12"] = dict(
+    text="Coq theorems on the model of tls_listener.rs (Model/ClientRandom.v): for ANY extraction function the peek loop is transparent "
+         "(prebuffer ++ unread bytes = the client's stream, the prebuffer stays within 16 KiB, and the wrapped stream replays exactly the "
+         "client's bytes for any read sizes); for any extraction function stable under extension, if a prefix of the stream within the "
+         "limit yields the client random then every segmentation yields exactly that value; the modelled record/ClientHello layout "
+         "reports only bytes 11..43 of a handshake record starting with a ClientHello and is stable. Tied by translator facts "
+         "(TlsFacts.v), by tls-parser's verdicts on synthetic and mutated records vs the layout model, by peek-and-replay over real "
+         "loopback TCP in chosen segments (incl. the 16 KiB limit), and by real rustls handshakes whose first flight is cut into pieces "
+         "(random on the wire = random reported, SNI/ALPN intact, data echoed)",
+    note="partial: tls-parser and rustls are library code (differentially checked, not modelled beyond the ClientHello-first layout); "
+         "the QUIC client random comes from the QUIC library after the handshake and is not driven here; trusted: Coq kernel, "
+         "Model/ClientRandom.v, translator facts, extraction + driver, harness door verif::tls",
+    design="DESIGN.md 5 C12")
+
 PENDING_REASON = "check under construction in this round (designed in DESIGN.md, not yet wired into ./check)"
 
 
